@@ -29,6 +29,20 @@ CLAIMED = {
         technique="static table evaluation + per-path effect extraction over a hand-built CFG (ast)",
         ref="4/C04",
     ),
+    "C15": dict(
+        level="other",
+        text="Structural decision of the fragmentation protocol: the PDV overhead is derived from the "
+        "statically evaluated PDV codec table, every fragment-size/count/read site must subtract one "
+        "common constant >= it, the rejected range ends at overhead+1, 0 means one fragment on all three "
+        "paths; a typestate over every path of encode_msg proves one PDV per P-DATA, command before data, "
+        "non-last headers in loops and exactly one last header per part, no fragment lost; the reader's "
+        "masks are evaluated on the writer's four header literals; maximum_pdu_size is the peer's limit.",
+        note="Trusted: CPython ast, C01's codec model. Byte equality of the reassembled streams for all lengths "
+        "follows from slicing arithmetic that is matched structurally (shape of the generator), not proved; "
+        "pydicom's command-set codec is outside the analysed program.",
+        technique="constant agreement against a derived overhead + path typestate over a hand-built CFG (ast)",
+        ref="4/C15",
+    ),
     "C28": dict(
         level="proof",
         text="Exhaustive over a finite space: code_to_category's clause chain is read from the syntax "
